@@ -1177,7 +1177,7 @@ func classify(ds *Dataset, col, op string, l Lit, negated bool) string {
 }
 
 // where stage: integers above 2^53 go through float64 (not modelled); `= 0` / `!= 0` against a
-// value that is not an int64 compares "0" with "0" (known defect)
+// value that is not an int64 compared "0" with "0" before the repair of ConvertToSameType (stream kept: a regression is a violation)
 func whereClass(ds *Dataset, col, op string, l Lit) string {
 	if absRat(l.N.R).Cmp(two53) > 0 {
 		return "where_int_above_2p53"
